@@ -7,10 +7,10 @@ CONSTANTS
   MaxAbandon = 1
   DirOf <- SameSide
   Kinds = {"call"}
-  Faults = {"exit"}
-  TagMode = "fresh"
+  Faults = {}
+  TagMode = "reuse"
   ResolveMode = "bytag"
   MaxPg = 0
 INVARIANTS
-  Ordered NoCrossWire TagsUnique AnsweredWasDelivered StoppedIsClean ProxyHasOriginal Mirrors
+  NoCrossWire
 CHECK_DEADLOCK TRUE
